@@ -85,10 +85,25 @@ def run(ctx):
     slim = [{"i": e["i"], "ev": e["ev"]} for e in events]
     tf = os.path.join(wd, "trace.ndjson")
     vlib.write_ndjson(tf, slim)
-    t = vlib.tlc("Trace_Activation", cfg="Trace_Activation.cfg", wd=wd, env={"TRACE": tf}, tags=("REJECT",),
-                 timeout=2400, xmx="12g", out_file=os.path.join(wd, "tlc-trace.out"))
-    vlib.require_tlc_ok(t, "Trace_Activation")
-    rej = {p["rec"]: p for (_, p) in t.records}
+    # validated in slices: the whole thorough log does not fit TLC's heap at once
+    CH = 1200
+    rej, t = {}, None
+    tdistinct = tgenerated = 0
+    tcov = {}
+    for off in range(0, len(slim), CH):
+        stf = os.path.join(wd, "trace-%d.ndjson" % off)
+        vlib.write_ndjson(stf, slim[off:off + CH])
+        t = vlib.tlc("Trace_Activation", cfg="Trace_Activation.cfg", wd=wd, env={"TRACE": stf}, tags=("REJECT",),
+                     timeout=7200, xmx="12g", out_file=os.path.join(wd, "tlc-trace-%d.out" % off))
+        vlib.require_tlc_ok(t, "Trace_Activation")
+        for (_, p) in t.records:
+            p["rec"] += off
+            rej[p["rec"]] = p
+        tdistinct += t.distinct
+        tgenerated += t.generated
+        for k_, v_ in t.coverage.items():
+            tcov[k_] = (tcov.get(k_, (0, 0))[0] + v_[0], tcov.get(k_, (0, 0))[1] + v_[1])
+    t.distinct, t.generated, t.coverage = tdistinct, tgenerated, tcov
     for k, p in rej.items():
         e = events[k - 1]
         case = cases[e["i"]]
